@@ -15,13 +15,16 @@ import (
 	"strings"
 
 	refaztec "verif/ref/aztec"
+	refqr "verif/ref/qr"
 	refoned "verif/ref/oned"
 
 	"github.com/makiuchi-d/gozxing"
 	"github.com/makiuchi-d/gozxing/aztec"
+	azdec "github.com/makiuchi-d/gozxing/aztec/decoder"
 	"github.com/makiuchi-d/gozxing/common"
 	"github.com/makiuchi-d/gozxing/common/reedsolomon"
 	"github.com/makiuchi-d/gozxing/datamatrix"
+	dmdec "github.com/makiuchi-d/gozxing/datamatrix/decoder"
 	dmenc "github.com/makiuchi-d/gozxing/datamatrix/encoder"
 	multiqr "github.com/makiuchi-d/gozxing/multi/qrcode"
 	"github.com/makiuchi-d/gozxing/oned"
@@ -230,6 +233,51 @@ func init() {
 			return gray(must(qw().Encode(cs.text, gozxing.BarcodeFormat_QR_CODE, 0, 0, H{gozxing.EncodeHintType_CHARACTER_SET: cs.charset})), 2, 8)
 		}
 	}
+	builders["qr-v8"] = func() *image.Gray {
+		return gray(must(qw().Encode(strings.Repeat("really version eight. ", 9), gozxing.BarcodeFormat_QR_CODE, 0, 0, H{gozxing.EncodeHintType_ERROR_CORRECTION: qrdec.ErrorCorrectionLevel_M})), 3, 12)
+	}
+	builders["qr-mirrored"] = func() *image.Gray {
+		return transposeGray(gray(must(qw().Encode("mirrored symbol 42", gozxing.BarcodeFormat_QR_CODE, 0, 0, nil)), 3, 12))
+	}
+	builders["qr-mirrored-pure"] = func() *image.Gray {
+		return transposeGray(gray(must(qw().Encode("mirrored symbol 42", gozxing.BarcodeFormat_QR_CODE, 0, 0, nil)), 1, 0))
+	}
+	builders["qr-two"] = func() *image.Gray {
+		a := gray(must(qw().Encode("first of two", gozxing.BarcodeFormat_QR_CODE, 0, 0, nil)), 3, 12)
+		b := gray(must(qw().Encode("second of two symbols", gozxing.BarcodeFormat_QR_CODE, 0, 0, H{gozxing.EncodeHintType_ERROR_CORRECTION: qrdec.ErrorCorrectionLevel_H})), 3, 12)
+		g := image.NewGray(image.Rect(0, 0, a.Rect.Dx()+b.Rect.Dx()+20, imax(a.Rect.Dy(), b.Rect.Dy())))
+		for i := range g.Pix {
+			g.Pix[i] = 255
+		}
+		for y := 0; y < a.Rect.Dy(); y++ {
+			copy(g.Pix[y*g.Stride:], a.Pix[y*a.Stride:y*a.Stride+a.Rect.Dx()])
+		}
+		for y := 0; y < b.Rect.Dy(); y++ {
+			copy(g.Pix[y*g.Stride+a.Rect.Dx()+20:], b.Pix[y*b.Stride:y*b.Stride+b.Rect.Dx()])
+		}
+		return g
+	}
+	builders["dm-mixed"] = func() *image.Gray {
+		return gray(must(dw().Encode("ABC>DEF*GHI\r123>*\r @@@@^^^^____ éééééééé\u00a0\u00ff end", gozxing.BarcodeFormat_DATA_MATRIX, 0, 0, nil)), 1, 0)
+	}
+	for i, n := range []int{3, 9, 14, 20, 30, 45, 60, 90, 130, 200} {
+		n := n
+		builders[fmt.Sprint("dm-size-", i)] = func() *image.Gray {
+			return gray(must(dw().Encode(strings.Repeat("A1b", n)[:n+2], gozxing.BarcodeFormat_DATA_MATRIX, 0, 0, nil)), 1, 0)
+		}
+		builders[fmt.Sprint("dm-rsize-", i)] = func() *image.Gray {
+			m, e := dw().Encode(strings.Repeat("Z9", n)[:imin(n+1, 40)], gozxing.BarcodeFormat_DATA_MATRIX, 0, 0, H{gozxing.EncodeHintType_DATA_MATRIX_SHAPE: dmenc.SymbolShapeHint_FORCE_RECTANGLE})
+			if e != nil {
+				return image.NewGray(image.Rect(0, 0, 8, 8))
+			}
+			return gray(m, 1, 0)
+		}
+	}
+	builders["code128-sideways"] = func() *image.Gray {
+		up := gray(must(oned.NewCode128Writer().Encode("Sideways 128", gozxing.BarcodeFormat_CODE_128, 0, 24, H{gozxing.EncodeHintType_MARGIN: 20})), 1, 3)
+		r := transposeGray(up)
+		return r
+	}
 	builders["aztec-c"] = func() *image.Gray {
 		s, err := refaztec.EncodeAuto(refaztec.AutoEncode([]byte("Aztec compact")), 33)
 		if err != nil {
@@ -304,6 +352,49 @@ func rsRoundTrip(f *reedsolomon.GenericGF, k, r int, size int) string {
 	return fmt.Sprint(c[:4], c[k:k+2], fmt.Sprint(c) == fmt.Sprint(w))
 }
 
+func imax(a, b int) int {
+	if a > b {
+		return a
+	}
+	return b
+}
+
+func imin(a, b int) int {
+	if a < b {
+		return a
+	}
+	return b
+}
+
+func transposeGray(g *image.Gray) *image.Gray {
+	w, h := g.Rect.Dx(), g.Rect.Dy()
+	t := image.NewGray(image.Rect(0, 0, h, w))
+	for y := 0; y < h; y++ {
+		for x := 0; x < w; x++ {
+			t.Pix[x*t.Stride+y] = g.Pix[y*g.Stride+x]
+		}
+	}
+	return t
+}
+
+type rowDecoder interface {
+	DecodeRow(rowNumber int, row *gozxing.BitArray, hints map[gozxing.DecodeHintType]interface{}) (*gozxing.Result, error)
+}
+
+func decodeRow(rd gozxing.Reader, g *image.Gray) string {
+	d, ok := rd.(rowDecoder)
+	if !ok {
+		return "ERR(no DecodeRow)"
+	}
+	row := gozxing.NewBitArray(g.Rect.Dx())
+	for x := 0; x < g.Rect.Dx(); x++ {
+		if g.Pix[x] < 128 {
+			row.Set(x)
+		}
+	}
+	return result(d.DecodeRow(0, row, nil))
+}
+
 func parseRoundTrip(w, h, step int) string {
 	m, _ := gozxing.NewBitMatrix(w, h)
 	for i := 0; i < w*h; i += step {
@@ -341,6 +432,12 @@ var needs = map[string][]string{
 	"codabar-r-startend": {"codabar"}, "dm-r-macro": {"dm-macro"}, "qr-r-gs1": {"qr-gs1"},
 	"qr-r-utf16be": {"qr-utf16be"}, "qr-r-gb18030": {"qr-gb18030"}, "qr-r-euckr": {"qr-euckr"}, "qr-r-big5": {"qr-big5"}, "qr-r-sjis-byte": {"qr-sjis-byte"}, "qr-r-1251": {"qr-1251"},
 	"qr-r-hint-charset": {"qr-pure"}, "lum-views": {"qr-pure"},
+	"qr-r-v8": {"qr-v8"}, "qr-r-mirrored": {"qr-mirrored"}, "qr-r-mirrored-pure": {"qr-mirrored-pure"}, "qr-r-multi-two": {"qr-two"}, "dm-r-mixed": {"dm-mixed"},
+	"dm-r-sizes":  {"dm-size-0", "dm-size-1", "dm-size-2", "dm-size-3", "dm-size-4", "dm-size-5", "dm-size-6", "dm-size-7", "dm-size-8", "dm-size-9"},
+	"dm-r-rsizes": {"dm-rsize-0", "dm-rsize-1", "dm-rsize-2", "dm-rsize-3", "dm-rsize-4", "dm-rsize-5"},
+	"code128-r-sideways": {"code128-sideways"}, "lum-rgb-yuv": {"qr-loc"},
+	"misc-api":    {"dm-pure", "qr-pure", "upca", "aztec-c"},
+	"rows-upcean": {"ean13", "ean8", "upca", "upce"}, "rows-other": {"code39", "code93", "code128", "itf", "codabar"}, "rss14-r-reset": {"rss14"},
 	"code93-r": {"code93"}, "code128-r": {"code128"}, "itf-r": {"itf"}, "codabar-r": {"codabar"}, "rss14-r": {"rss14"},
 }
 
@@ -478,6 +575,193 @@ func all() []opLit {
 		{"qr-r-1251", func() string { return read(qrcode.NewQRCodeReader(), img("qr-1251"), nil) }},
 		{"qr-r-hint-charset", func() string {
 			return read(qrcode.NewQRCodeReader(), img("qr-pure"), D{gozxing.DecodeHintType_PURE_BARCODE: true, gozxing.DecodeHintType_CHARACTER_SET: "UTF-16BE"})
+		}},
+		{"qr-r-v8", func() string { return read(qrcode.NewQRCodeReader(), img("qr-v8"), nil) }},
+		{"qr-r-mirrored", func() string { return read(qrcode.NewQRCodeReader(), img("qr-mirrored"), nil) }},
+		{"qr-r-mirrored-pure", func() string { return read(qrcode.NewQRCodeReader(), img("qr-mirrored-pure"), pure) }},
+		{"qr-r-multi-two", func() string {
+			bmp, _ := gozxing.NewBinaryBitmapFromImage(img("qr-two"))
+			rs, e := multiqr.NewQRCodeMultiReader().DecodeMultiple(bmp, hard)
+			if e != nil {
+				return errKind(e)
+			}
+			var s []string
+			for _, r := range rs {
+				s = append(s, result(r, nil))
+			}
+			sort.Strings(s)
+			return strings.Join(s, ";")
+		}},
+		{"dm-r-mixed", func() string { return read(datamatrix.NewDataMatrixReader(), img("dm-mixed"), pure) }},
+		{"dm-w-mixed", func() string {
+			return write(datamatrix.NewDataMatrixWriter(), "ABC>DEF*GHI\r123>*\r @@@@^^^^____ éééééééé\u00a0\u00ff end", DM, 0, 0, nil)
+		}},
+		{"dm-r-sizes", func() string {
+			var sb strings.Builder
+			for i := 0; i < 10; i++ {
+				sb.WriteString(read(datamatrix.NewDataMatrixReader(), img(fmt.Sprint("dm-size-", i)), pure) + ";")
+			}
+			return sb.String()
+		}},
+		{"dm-r-rsizes", func() string {
+			var sb strings.Builder
+			for i := 0; i < 6; i++ {
+				sb.WriteString(read(datamatrix.NewDataMatrixReader(), img(fmt.Sprint("dm-rsize-", i)), pure) + ";")
+			}
+			return sb.String()
+		}},
+		{"code128-r-sideways", func() string { return read(oned.NewCode128Reader(), img("code128-sideways"), hard) }},
+		{"rows-upcean", func() string {
+			return decodeRow(oned.NewEAN13Reader(), img("ean13")) + ";" + decodeRow(oned.NewEAN8Reader(), img("ean8")) + ";" +
+				decodeRow(oned.NewUPCAReader(), img("upca")) + ";" + decodeRow(oned.NewUPCEReader(), img("upce")) + ";" +
+				decodeRow(oned.NewMultiFormatUPCEANReader(nil), img("upca"))
+		}},
+		{"rows-other", func() string {
+			return decodeRow(oned.NewCode39Reader(), img("code39")) + ";" + decodeRow(oned.NewCode93Reader(), img("code93")) + ";" +
+				decodeRow(oned.NewCode128Reader(), img("code128")) + ";" + decodeRow(oned.NewITFReader(), img("itf")) + ";" + decodeRow(oned.NewCodaBarReader(), img("codabar"))
+		}},
+		{"rss14-r-reset", func() string {
+			rd := rss.NewRSS14Reader()
+			a := read(rd, img("rss14"), nil)
+			rd.Reset()
+			return a + ";" + read(rd, img("rss14"), hard)
+		}},
+		{"lum-rgb-yuv", func() string {
+			g := img("qr-loc")
+			w, h := g.Rect.Dx(), g.Rect.Dy()
+			px := make([]int, w*h)
+			yuv := make([]byte, w*h*3/2+8)
+			for i := 0; i < w*h; i++ {
+				v := int(g.Pix[(i/w)*g.Stride+i%w])
+				px[i] = 0xff000000 | v<<16 | v<<8 | v
+				yuv[i] = byte(v)
+			}
+			var sb strings.Builder
+			rgb := gozxing.NewRGBLuminanceSource(w, h, px)
+			for _, v := range []gozxing.LuminanceSource{rgb, rgb.Invert().Invert()} {
+				bmp, _ := gozxing.NewBinaryBitmap(gozxing.NewHybridBinarizer(v))
+				sb.WriteString(result(qrcode.NewQRCodeReader().Decode(bmp, nil)) + ";")
+			}
+			if c, e := rgb.Crop(2, 2, w-4, h-4); e == nil {
+				bmp, _ := gozxing.NewBinaryBitmap(gozxing.NewGlobalHistgramBinarizer(c))
+				sb.WriteString(result(qrcode.NewQRCodeReader().Decode(bmp, nil)) + ";")
+			}
+			ys, e := gozxing.NewPlanarYUVLuminanceSource(yuv, w, h, 1, 1, w-2, h-2, false)
+			if e != nil {
+				return sb.String() + errKind(e)
+			}
+			bmp, _ := gozxing.NewBinaryBitmap(gozxing.NewHybridBinarizer(ys))
+			sb.WriteString(result(qrcode.NewQRCodeReader().Decode(bmp, nil)) + ";")
+			if c, e := bmp.Crop(1, 1, w-6, h-6); e == nil {
+				sb.WriteString(result(qrcode.NewQRCodeReader().Decode(c, nil)) + ";")
+			}
+			yr, e := gozxing.NewPlanarYUVLuminanceSource(yuv, w, h, 0, 0, w, h, true)
+			if e == nil {
+				hsh := fnv.New64a()
+				hsh.Write(yr.GetMatrix())
+				fmt.Fprintf(&sb, "%x;%dx%d", hsh.Sum64(), yr.(*gozxing.PlanarYUVLuminanceSource).GetThumbnailWidth(), len(yr.(*gozxing.PlanarYUVLuminanceSource).RenderThumbnail()))
+			}
+			return sb.String()
+		}},
+		{"aztec-highlevel", func() string {
+			bits := refaztec.AutoEncode([]byte("High level: Aztec 123, punct. and \x01\x02 binary \xe9\xff"))
+			s, e := azdec.NewDecoder().HighLevelDecode(bits)
+			if e != nil {
+				return errKind(e)
+			}
+			return fmt.Sprintf("%q", s)
+		}},
+		{"writers-nohint", func() string {
+			a, e1 := qrcode.NewQRCodeWriter().EncodeWithoutHint("no hints", QR, 30, 30)
+			b, e2 := datamatrix.NewDataMatrixWriter().EncodeWithoutHint("no hints", DM, 0, 0)
+			c, e3 := oned.NewUPCAWriter().EncodeWithoutHint("03600029145", gozxing.BarcodeFormat_UPC_A, 0, 3)
+			if e1 != nil || e2 != nil || e3 != nil {
+				return fmt.Sprint("ERR", e1, e2, e3)
+			}
+			return hashM(a) + hashM(b) + hashM(c)
+		}},
+		{"qr-d-hanzi", func() string {
+			// one Hanzi segment (mode 1101, subset 0001, 2 characters of 13 bits) in a version 1-L symbol
+			bits := []int{}
+			put := func(v, n int) {
+				for i := n - 1; i >= 0; i-- {
+					bits = append(bits, (v>>uint(i))&1)
+				}
+			}
+			put(0xD, 4)
+			put(1, 4)
+			put(2, 8)
+			put(0x0F*0x60+0x00, 13) // GB2312 B0A1
+			put(0x0F*0x60+0x01, 13) // GB2312 B0A2
+			put(0, 4)
+			for len(bits)%8 != 0 {
+				bits = append(bits, 0)
+			}
+			data := make([]byte, 19)
+			for i := range data {
+				if i*8 < len(bits) {
+					for k := 0; k < 8; k++ {
+						data[i] = data[i]<<1 | byte(bits[i*8+k])
+					}
+				} else if (i-len(bits)/8)%2 == 0 {
+					data[i] = 0xEC
+				} else {
+					data[i] = 0x11
+				}
+			}
+			m := refqr.Build(data, 1, refqr.L, 2)
+			r, e := qrdec.NewDecoder().DecodeBoolMap(m, nil)
+			if e != nil {
+				return errKind(e)
+			}
+			r2, e2 := qrdec.NewDecoder().DecodeBoolMapWithoutHint(m)
+			return fmt.Sprintf("%q %v %v", r.GetText(), r2 != nil, e2)
+		}},
+		{"misc-api", func() string {
+			var sb strings.Builder
+			a := gozxing.NewBitArray(70)
+			a.SetRange(3, 67)
+			a.Flip(40)
+			fmt.Fprint(&sb, a.GetBitArray(), ";")
+			m, _ := gozxing.ParseBoolMapToBitMatrix([][]bool{{true, false, true}, {false, true, true}})
+			m.Unset(2, 1)
+			fmt.Fprint(&sb, hashM(m), m.Bounds(), m.At(0, 0), m.GetRowSize(), ";")
+			pt := common.PerspectiveTransform_QuadrilateralToQuadrilateral(0, 0, 10, 0, 10, 10, 0, 10, 1, 2, 30, 4, 28, 33, 2, 29)
+			xs, ys := []float64{0.5, 3.5, 9.5}, []float64{0.5, 7.5, 9.5}
+			pt.TransformPointsXY(xs, ys)
+			fmt.Fprintf(&sb, "%.6f %.6f;", xs, ys)
+			ar, er := []int{3, 4, 5, 2}, []float64{0.1, -0.4, 0.3, 0.2}
+			rss.RSSReader_increment(ar, er)
+			rss.RSSReader_decrement(ar, er)
+			rss.RSSReader_decrement(ar, er)
+			fmt.Fprint(&sb, ar, ";")
+			f := reedsolomon.NewGenericGF(0x13, 16, 1)
+			lg, _ := f.Log(11)
+			fmt.Fprint(&sb, f.Multiply(7, 9), f.Exp(5), lg, ";")
+			dmm := [][]bool{}
+			g := img("dm-pure")
+			for y := 0; y < g.Rect.Dy(); y++ {
+				row := make([]bool, g.Rect.Dx())
+				for x := range row {
+					row[x] = g.Pix[y*g.Stride+x] < 128
+				}
+				dmm = append(dmm, row)
+			}
+			dr, e := dmdec.NewDecoder().DecodeBoolMap(dmm)
+			if e != nil {
+				sb.WriteString(errKind(e))
+			} else {
+				fmt.Fprintf(&sb, "%q;", dr.GetText())
+			}
+			bmp, _ := gozxing.NewBinaryBitmapFromImage(img("qr-pure"))
+			sb.WriteString(result(qrcode.NewQRCodeReader().DecodeWithoutHints(bmp)) + ";")
+			bmp, _ = gozxing.NewBinaryBitmapFromImage(img("dm-pure"))
+			sb.WriteString(result(datamatrix.NewDataMatrixReader().DecodeWithoutHints(bmp)) + ";")
+			bmp, _ = gozxing.NewBinaryBitmapFromImage(img("upca"))
+			sb.WriteString(result(oned.NewUPCAReader().DecodeWithoutHints(bmp)) + ";")
+			bmp, _ = gozxing.NewBinaryBitmapFromImage(img("aztec-c"))
+			sb.WriteString(result(aztec.NewAztecReader().DecodeWithoutHints(bmp)) + ";")
+			return sb.String()
 		}},
 		{"bm-parse-a", func() string { return parseRoundTrip(37, 11, 3) }},
 		{"bm-parse-b", func() string { return parseRoundTrip(64, 5, 7) }},
